@@ -554,7 +554,49 @@ def case_quant(ctx, inp):
         ctx.branch("nan data")
 
 
-CASES = {"plan": case_plan, "depth": case_depth, "blsched": case_blsched, "reduce": case_reduce,
+def _build_item(da, x, it):
+    k = it["kind"]
+    if k == "reduce":
+        kw = {}
+        if it["op"] in ("var", "std", "nanvar", "nanstd"):
+            kw["ddof"] = it.get("ddof", 0)
+        if it["op"] == "moment":
+            kw["order"] = it.get("order", 2)
+        ax = it["axis"]
+        return getattr(da, it["op"])(x, axis=None if ax is None else (ax if isinstance(ax, int) else tuple(ax)),
+                                     keepdims=it["keepdims"], split_every=dec_split(it["split_every"]), **kw)
+    if k == "arg":
+        return getattr(da, it["op"])(x, axis=it["axis"], keepdims=it["keepdims"], split_every=dec_split(it["split_every"]))
+    if k == "cum":
+        return getattr(da, it["op"])(x, axis=it["axis"], method=it["method"])
+    if k == "topk":
+        return (da.argtopk if it["arg"] else da.topk)(x, it["k"], axis=it["axis"], split_every=dec_split(it["split_every"]))
+    raise KeyError(k)
+
+
+def case_joint(ctx, inp):
+    """Several different reductions of the SAME array computed in one graph: each must keep its own result
+    (distinct names/keys for distinct parameters)."""
+    da = _da()
+    a = dec_arr(inp["a"])
+    x = da.from_array(a, chunks=tuple(tuple(c) for c in inp["chunks"]))
+    with warnings.catch_warnings():
+        warnings.simplefilter("ignore")
+        arrs = [_build_item(da, x, it) for it in inp["items"]]
+        bad = U.joint_vs_solo(arrs)
+    for i in bad:
+        ctx.fail("a reduction computed together with others differs from the same reduction computed alone",
+                 observed={"item": inp["items"][i], "name": arrs[i].name,
+                           "same_name_as": [j for j, y in enumerate(arrs) if j != i and y.name == arrs[i].name]})
+    names = {}
+    for it, y in zip(inp["items"], arrs):
+        names.setdefault(y.name, []).append(it)
+    if any(len(v) > 1 for v in names.values()):
+        ctx.branch("identical items share a name")
+    ctx.branch(f"joint×{len(arrs)}")
+
+
+CASES = {"joint": case_joint, "plan": case_plan, "depth": case_depth, "blsched": case_blsched, "reduce": case_reduce,
          "arg": case_arg, "cum": case_cum, "topk": case_topk, "quant": case_quant}
 
 
@@ -729,6 +771,39 @@ def _exhaustive_small(ctx):
                                  "axis": 0, "keepdims": False, "split_every": se}
 
 
+def gen_joint(ctx, n):
+    rng = ctx.rng
+    for _ in range(n):
+        shape = U.rand_shape(rng, 3, 5)
+        chunks = U.rand_chunks(rng, shape)
+        a = U.rand_int_array(rng, shape, -3, 3) if rng.random() < 0.6 else U.rand_float_array(rng, shape)
+        nd = len(shape)
+        items = []
+        base_op = rng.choice(["sum", "max", "mean", "var", "prod"])
+        for _ in range(rng.randint(3, 6)):
+            r = rng.random()
+            if r < 0.55:
+                op = base_op if rng.random() < 0.7 else rng.choice(["sum", "min", "mean", "std", "nansum", "moment"])
+                it = {"kind": "reduce", "op": op, "axis": rng.choice(_axis_choices(nd)), "keepdims": rng.random() < 0.5,
+                      "split_every": rng.choice([None, 2, 3])}
+                if op in ("var", "std"):
+                    it["ddof"] = rng.choice([0, 1])
+                if op == "moment":
+                    it["order"] = rng.choice([2, 3])
+            elif r < 0.7:
+                it = {"kind": "arg", "op": rng.choice(["argmin", "argmax"]), "axis": rng.choice([None] + list(range(nd))),
+                      "keepdims": rng.random() < 0.5, "split_every": rng.choice([None, 2])}
+            elif r < 0.85:
+                it = {"kind": "cum", "op": rng.choice(["cumsum", "cumprod"]), "axis": rng.randrange(nd),
+                      "method": rng.choice(["sequential", "blelloch"])}
+            else:
+                ax = rng.randrange(nd)
+                it = {"kind": "topk", "k": rng.randint(1, shape[ax]) * rng.choice([1, -1]), "axis": ax,
+                      "split_every": rng.choice([None, 2]), "arg": rng.random() < 0.5}
+            items.append(it)
+        yield "joint", {"a": enc_arr(a), "chunks": [list(c) for c in chunks], "items": items}
+
+
 def _exhaustive_nd(ctx):
     """thorough tier: ALL chunkings (every composition of every axis) of shapes (4,3) and (3,2,2), and a
     sample of them in the quick tier."""
@@ -776,6 +851,7 @@ def generate(ctx):
     yield from gen_cum(ctx, ctx.n(110, 1500))
     yield from gen_topk(ctx, ctx.n(90, 1200))
     yield from gen_quant(ctx, ctx.n(40, 600))
+    yield from gen_joint(ctx, ctx.n(60, 600))
 
 
 def search(ctx):
